@@ -2,10 +2,10 @@
    Model: Model/Tee.v. Status on the current tree: the "no fork blocks forever" and "ends the way the
    source ended" clauses are FALSE (known findings C10-I, C10-J, C10-K; witnesses below are schedules
    observed on the implementation under the deterministic scheduler). Proved for all schedules:
-   the source is pulled once per element and the shared boxes hold the pulled elements in order.
-   C10_fork_prefix_todo (each fork's received list is a prefix of the source) and C10_tee_window_todo are
-   not proved; they are checked by the oracle on every explored run. *)
-From MpV Require Import Lib.Conc Model.Tee Proof.TeeProof.
+   the source is pulled once per element, the shared boxes hold the pulled elements in order, and every
+   fork has received a prefix of them (so all forks see the same elements in source order).
+   C10_tee_window_todo is not proved; it is checked by the oracle on every explored run. *)
+From MpV Require Import Lib.Conc Model.Tee Proof.TeeProof Proof.TeePrefix.
 
 Theorem C10_source_pulled_once : forall (g : cfg) (sched : list label),
   let s := run step g (init g) sched in
@@ -13,6 +13,17 @@ Theorem C10_source_pulled_once : forall (g : cfg) (sched : list label),
   exists consumed, src g = consumed ++ rest s /\ map bval (boxes s) = datas_all consumed.
 Proof. exact source_pulled_once. Qed.
 Print Assumptions C10_source_pulled_once.
+
+(* For every number of forks, window size, source (data elements and failures) and every interleaving, including
+   every expiry of the timed acquisition of the source lock: what any fork has handed to its consumer so far is a
+   prefix of the data elements pulled from the source, in source order. No fork ever sees an element twice, out of
+   order, or an element the others do not see at the same position. *)
+Theorem C10_fork_prefix : forall (g : cfg) (sched : list label) (f : nat) (k : fork),
+  let s := run step g (init g) sched in
+  nth_error (forks s) f = Some k ->
+  exists consumed, src g = consumed ++ rest s /\ recv k = firstn (length (recv k)) (datas_all consumed).
+Proof. exact fork_prefix_of_source. Qed.
+Print Assumptions C10_fork_prefix.
 
 (* C10-I: the first-element path takes the source lock unconditionally while a peer holds it blocked
    in buffer.put: both forks hang (2 forks, buffer_size 2, 3 elements). *)
